@@ -59,6 +59,26 @@ def make_input(dom, k, variant=0):
     return INPUTS[dom](k, **v) if v else INPUTS[dom](k)
 
 
+def make_corrupt(dom, kind=0):
+    """an input a loader that skips unreadable samples would feed once: a truncated image file (header intact, so mode and size
+    are known; the pixel data is cut off, PIL raises at the first pixel access), an empty tensor, ..."""
+    import io
+    import numpy as np
+    if dom == "P":
+        mode = ["L", "RGB"][kind % 2]
+        shape = (64, 64) if mode == "L" else (64, 64, 3)
+        data = (np.random.default_rng(kind).random(shape) * 255).astype("uint8")  # noise: the pixel data dominates the file
+        buf = io.BytesIO()
+        Image.fromarray(data, mode=mode).save(buf, format="JPEG")
+        raw = buf.getvalue()
+        return Image.open(io.BytesIO(raw[:len(raw) // 2]))
+    if dom == "T":
+        return [torch.zeros(3, 0, 5), torch.zeros(5), torch.full((3, 16, 16), float("nan"))][kind % 3]
+    if dom == "S":
+        return torch.zeros(1, 0, 12)
+    return None
+
+
 def clone(x):
     if torch.is_tensor(x):
         return x.clone()
